@@ -931,10 +931,7 @@ class BradleyTerryFull:
         if ranks:
             team_scores = []
             for index, _ in enumerate(game):
-                if isinstance(ranks[index], int):
-                    team_scores.append(ranks[index])
-                else:
-                    team_scores.append(index)
+                team_scores.append(ranks[index])
         else:
             team_scores = [i for i, _ in enumerate(game)]
 
